@@ -82,6 +82,7 @@ I32 == Prim("i32")   BoolT == Prim("bool")
 D_ZPad   == DefStruct("ZPad", TRUE, FALSE, <<"C">>, <<>>, <<>>,
                       <<GF("a", U8), GF("b", U32), GF("c", U16)>>)
 D_ZA16   == DefStruct("ZA16", TRUE, FALSE, <<"C", "align(16)">>, <<>>, <<>>, <<GF("x", U32)>>)
+D_ZA64   == DefStruct("ZA64", TRUE, FALSE, <<"C", "align(64)">>, <<>>, <<>>, <<GF("x", U32)>>)
 D_ZUnit  == DefStruct("ZUnit", TRUE, FALSE, <<"C">>, <<>>, <<>>, <<>>)
 D_ZNest  == DefStruct("ZNest", TRUE, FALSE, <<"C">>, <<>>, <<>>,
                       <<GF("p", Inst(D_ZPad, <<>>, <<>>)), GF("q", U64)>>)
@@ -121,10 +122,11 @@ D_DC     == DefStruct("DC", FALSE, FALSE, <<>>, <<[name |-> "N", ck |-> "usize"]
 D_G3     == DefStruct("G3", FALSE, FALSE, <<>>, <<>>, <<"A", "B", "C">>,
                       <<GF("a", Param(1)), GF("b", Param(2)), GF("c", Param(3))>>)
 
-CoreDefs == <<D_G3, D_ZPad, D_ZA16, D_ZUnit, D_ZNest, D_ZArr, D_ZT, D_ZE, D_ZEP, D_ZPh, D_ZC,
+CoreDefs == <<D_G3, D_ZPad, D_ZA16, D_ZA64, D_ZUnit, D_ZNest, D_ZArr, D_ZT, D_ZE, D_ZEP, D_ZPh, D_ZC,
               D_DS, D_DZ, D_DT, D_DE, D_G, D_G2, D_GE, D_DC>>
 
 ZPad == Inst(D_ZPad, <<>>, <<>>)    ZA16 == Inst(D_ZA16, <<>>, <<>>)
+ZA64 == Inst(D_ZA64, <<>>, <<>>)
 ZUnit == Inst(D_ZUnit, <<>>, <<>>)  ZNest == Inst(D_ZNest, <<>>, <<>>)
 ZArr == Inst(D_ZArr, <<>>, <<>>)    ZT == Inst(D_ZT, <<>>, <<>>)
 ZE == Inst(D_ZE, <<>>, <<>>)        ZEP == Inst(D_ZEP, <<>>, <<>>)
@@ -182,7 +184,7 @@ SmallPrims == {Prim(n) : n \in {"u8", "u32", "u64", "bool"}}
 ZstLeaves == {UnitT, RangeFullT, Phantom(U32)}
 StrLeaves == {StringT, BoxStrT}
 RangeLeaves == {Range(rk, e) : rk \in RangeKinds, e \in {U32, U64}} \cup {Range("RangeTo", U8)}
-ZcDerived == {ZPad, ZA16, ZUnit, ZNest, ZArr, ZT, ZE, ZEP, ZPh(U16), ZCn(3), ZCn(0)}
+ZcDerived == {ZPad, ZA16, ZA64, ZUnit, ZNest, ZArr, ZT, ZE, ZEP, ZPh(U16), ZCn(3), ZCn(0)}
 DeepDerived == {DS, DZ, DT, DE, DCn(2)}
 OtherPhantoms == {Phantom(StrT), Phantom(HTuple(<<U8, StringT>>)), Phantom(Vec(U8))}
 
@@ -190,7 +192,7 @@ LeavesFull == AllPrims \cup ZstLeaves \cup StrLeaves \cup RangeLeaves \cup ZcDer
               \cup DeepDerived \cup OtherPhantoms
 LeavesQuick == QuickPrims \cup ZstLeaves \cup StrLeaves \cup RangeLeaves \cup ZcDerived \cup DeepDerived
 \* the reduced leaf set used at depth 2 and in the machine configurations
-LeavesSmall == SmallPrims \cup {UnitT, StringT, ZPad, ZA16, ZE, DS, DE, Range("RangeTo", U32), Range("RangeInclusive", U64)}
+LeavesSmall == SmallPrims \cup {UnitT, StringT, ZPad, ZA16, ZA64, ZE, DS, DE, Range("RangeTo", U32), Range("RangeInclusive", U64)}
 
 \* tuples need a ZeroCopy element; arrays/sequences an element that is ZeroCopy or DeepCopy
 TupleOk(t) == IsZeroCopyTrait(t)
@@ -206,6 +208,8 @@ Close(S, cfS) ==
     \cup {CFlow(b, c) : b \in cfS, c \in S} \cup {CFlow(b, c) : b \in S, c \in cfS}
     \cup {G(t) : t \in S} \cup {G2(t) : t \in {x \in S : ElemOk(x)}}
     \cup {GE(t, U8) : t \in S} \cup {GE(StringT, t) : t \in S}
+    \* every type in an ε-copied position (a type-parameter field) *followed by more data*
+    \cup {G3(t, U8, Vec(U32)) : t \in S}
 
 CfSmall == {U8, StringT}
 
@@ -221,7 +225,9 @@ Nested ==
   {Vec(Vec(U16)), Vec(Vec(U64)), Vec(Vec(U128)), Vec(Vec(ZPad)), Vec(BoxSlice(U32)), BoxSlice(Vec(ZA16)),
    Array(3, Vec(U32)), Vec(Option(Vec(U64))), Option(Vec(Vec(U16))), Vec(G(Vec(U32))),
    G3(Vec(U32), Vec(U64), StringT), G3(Vec(U16), BoxSlice(ZPad), Vec(U8)), G3(StringT, Vec(U128), Vec(ZA16)),
-   G3(Vec(U64), U8, Vec(U32)), GE(Vec(U32), Vec(U64))}
+   G3(Vec(U64), U8, Vec(U32)), GE(Vec(U32), Vec(U64)),
+   \* wide alignment units: gaps of more than 16 bytes, followed by blocks of a smaller unit
+   G3(StringT, Vec(ZA64), Vec(U64)), G3(Vec(U8), BoxSlice(ZA64), Vec(U32)), Vec(Option(ZA64)), G3(U8, ZA64, Vec(U16))}
 
 \* Named universes.  An operator with a parameter, on purpose: TLC evaluates every
 \* zero-arity constant definition at start-up, and the big closures cost minutes.
